@@ -169,3 +169,34 @@ example : (aggInterval true .lhs false (adjustPred .lhs (-1/10)) [1/100, -1/100]
   decide +kernel
 
 end ElexModel.Boot
+
+/-! ### bridge, continued: the overrides and `_adjust_called_contests` as dataflow of the source -/
+
+namespace ElexModel.Boot
+open ElexModel
+
+/-- `_adjust_called_contests` as written in the source is `adjustPred` -/
+theorem bridge_adjust (c : Call) (pred : ℚ) :
+    adjustPred c pred = Gen.C07.adjust_called pred (decide (c = .lhs)) (decide (c = .rhs))
+      Gen.C07.lhs_called_threshold Gen.C07.rhs_called_threshold := by
+  rw [bridge_thresholds.1, bridge_thresholds.2]
+  cases c <;> simp [adjustPred, Gen.C07.adjust_called]
+
+/-- the race-call overrides followed by the stop overrides of `get_aggregate_prediction_intervals`, in the source's order -/
+theorem bridge_overrides (c : Call) (stop : Bool) (r : ℚ × ℚ) :
+    overrideStop stop (overrideCalled c r) =
+      (Gen.C07.override_lower r.1 r.2 (decide (c = .lhs)) (decide (c = .rhs)) stop
+          Gen.C07.lhs_called_threshold Gen.C07.rhs_called_threshold,
+       Gen.C07.override_upper r.1 r.2 (decide (c = .lhs)) (decide (c = .rhs)) stop
+          Gen.C07.lhs_called_threshold Gen.C07.rhs_called_threshold) := by
+  rw [bridge_thresholds.1, bridge_thresholds.2]
+  unfold overrideStop overrideCalled Gen.C07.override_lower Gen.C07.override_upper
+  cases c <;> cases stop <;> simp [gt_iff_lt]
+
+theorem bridge_interval_shape :
+    Gen.C07.interval_returned = ["PredictionIntervals(interval_lower, interval_upper)"] ∧
+    Gen.C07.format_calls = ["self._format_called_contests(lhs_called_contests, rhs_called_contests, contests, 1, 0, -1)",
+      "self._format_called_contests(stop_model_call, [], contests, True, None, False)"] ∧
+    Gen.C07.state_written = ["self.called_contests", "self.stop_model_call"] := ⟨rfl, rfl, rfl⟩
+
+end ElexModel.Boot
